@@ -19,8 +19,13 @@ try:
     res["patch_applies"] = rc == 0
     rc, o = sh("go build ./...")
     res["builds"] = rc == 0
-    rc, o = sh("go test -vet=off -count=1 ./... 2>&1 | tail -15")
-    res["suite_passes_with_change"] = ("FAIL" not in o) and rc == 0
+    # the suite has timing-sensitive tests: on a loaded machine retry (up to 3 runs; a pass counts)
+    for attempt in range(3):
+        rc, o = sh("go test -vet=off -count=1 ./... 2>&1 | tail -15")
+        res["suite_passes_with_change"] = ("FAIL" not in o) and rc == 0
+        res["suite_runs"] = attempt + 1
+        if res["suite_passes_with_change"]:
+            break
     res["suite_tail"] = o[-600:]
     demo = meta["demo"]
     files = demo["file"] if isinstance(demo["file"], list) else [demo["file"]]
